@@ -270,7 +270,7 @@ func checkC16(c *checkCtx) {
 			continue
 		}
 		state := int64(0)
-		var pending *Event
+		var pendSpec, pendGen *Event // a specific / generic listener call still waiting for its counterpart (either order)
 		n := 0
 		registered := func(newState int64) bool { // is the specific listener for transitions into newState registered?
 			return p.NoListeners&map[int64]int{1: 1, 2: 2, 0: 4}[newState] == 0
@@ -281,21 +281,22 @@ func checkC16(c *checkCtx) {
 				continue
 			}
 			if e.L != LBrStateChanged {
-				if pending != nil {
-					c.fail("C16.breaker", "unpaired", fmt.Sprintf("breaker %d: state listener %s (%d->%d) was not followed by OnStateChanged", pi, listenerNames[pending.L], pending.A, pending.B))
-				}
 				want := map[int]int64{LBrOpen: 1, LBrHalfOpen: 2, LBrClose: 0}[e.L]
 				if e.B != want {
 					c.fail("C16.breaker", "wrong-listener", fmt.Sprintf("breaker %d: %s called for a transition to state %d", pi, listenerNames[e.L], e.B))
 				}
-				pending = e
+				switch {
+				case pendGen != nil && pendGen.A == e.A && pendGen.B == e.B:
+					pendGen = nil
+				case pendSpec != nil || pendGen != nil:
+					c.fail("C16.breaker", "unpaired", fmt.Sprintf("breaker %d: %s (%d->%d) has no matching OnStateChanged call", pi, listenerNames[e.L], e.A, e.B))
+					pendSpec, pendGen = e, nil
+				default:
+					pendSpec = e
+				}
 				continue
 			}
 			n++
-			if registered(e.B) && (pending == nil || pending.A != e.A || pending.B != e.B) {
-				c.fail("C16.breaker", "unpaired", fmt.Sprintf("breaker %d: OnStateChanged %d->%d without the matching specific listener", pi, e.A, e.B))
-			}
-			pending = nil
 			if e.A != state {
 				c.fail("C16.breaker", "disconnected", fmt.Sprintf("breaker %d: transition %d->%d reported while the previous events leave it in state %d", pi, e.A, e.B, state))
 			}
@@ -303,9 +304,21 @@ func checkC16(c *checkCtx) {
 				c.fail("C16.breaker", "self", fmt.Sprintf("breaker %d: transition %d->%d reported", pi, e.A, e.B))
 			}
 			state = e.B
+			switch {
+			case pendSpec != nil && pendSpec.A == e.A && pendSpec.B == e.B:
+				pendSpec = nil
+			case pendSpec != nil || pendGen != nil:
+				c.fail("C16.breaker", "unpaired", fmt.Sprintf("breaker %d: OnStateChanged %d->%d does not match the pending listener call", pi, e.A, e.B))
+				pendSpec, pendGen = nil, nil
+			case registered(e.B):
+				pendGen = e
+			}
 		}
-		if pending != nil {
-			c.fail("C16.breaker", "unpaired", fmt.Sprintf("breaker %d: %s was not followed by OnStateChanged", pi, listenerNames[pending.L]))
+		if pendSpec != nil {
+			c.fail("C16.breaker", "unpaired", fmt.Sprintf("breaker %d: %s was not accompanied by OnStateChanged", pi, listenerNames[pendSpec.L]))
+		}
+		if pendGen != nil {
+			c.fail("C16.breaker", "unpaired", fmt.Sprintf("breaker %d: OnStateChanged %d->%d was not accompanied by its specific listener", pi, pendGen.A, pendGen.B))
 		}
 		if n > 0 {
 			c.cov("c16.breaker_path_checked")
